@@ -162,7 +162,7 @@ def seq_expected(model_out, ops):
 def seq_observed(resp, timeout_ms):
     out = []
     timed_out = bool(resp.get("error")) and ("context deadline exceeded" in resp["error"] or "context canceled" in resp["error"])
-    if resp.get("ms", 0) >= timeout_ms:
+    if resp.get("ctx_done") or resp.get("ms", 0) >= timeout_ms:
         timed_out = True        # the deadline passed while the script was running: some operation blocked
     for x in resp["logs"].get("h", []):
         if isinstance(x, str):
@@ -463,6 +463,44 @@ def spawn_observed(resp):
     return out
 
 
+
+# ------------------------------------------------------------------ deterministic replay of the Coq witness (overlay hook)
+
+WITNESS_SRC = """ch := chan(2)
+ch <- 10
+ch <- 11
+func r(j) { for _, v := range ch { rec(j, v) } }
+t1 := spawn(r, 1)
+t2 := spawn(r, 2)
+await(2)
+close(ch)
+t1.wait()
+t2.wait()
+"done"
+"""
+
+
+def build_gap_binary():
+    """c10obs with a build-time overlay that inserts one call between iter.Next and iter.Entry in ForIter (no file of
+    the repository is edited).  Returns (exe, why_not)."""
+    d = os.path.join(C.BUILD, "overlay_c10")
+    os.makedirs(d, exist_ok=True)
+    try:
+        src = open(os.path.join(C.REPO, "vm", "vm.go")).read()
+    except OSError as e:
+        return None, str(e)
+    anchor = "obj, _ := iter.Entry()"
+    if src.count(anchor) != 1:
+        return None, "anchor %r found %d times in vm/vm.go" % (anchor, src.count(anchor))
+    C.write_if_changed(os.path.join(d, "vm_gap.go"), src.replace(anchor, "verifIterGap()\n\t\t\t\t" + anchor))
+    C.write_if_changed(os.path.join(d, "vm_gap_hook.go"), open(os.path.join(C.VERIF, "hooks", "vm_c10_gap.go.txt")).read())
+    ov = {"Replace": {os.path.join(C.REPO, "vm", "vm.go"): os.path.join(d, "vm_gap.go"),
+                      os.path.join(C.REPO, "vm", "zz_c10_gap_hook.go"): os.path.join(d, "vm_gap_hook.go")}}
+    p = os.path.join(d, "overlay.json")
+    C.write_if_changed(p, json.dumps(ov, indent=1))
+    exe, err = C.go_build("c10obs", out=os.path.join(C.BIN, "c10obs-gap"), tags="verif,c10gap", overlay=p)
+    return exe, err[-1500:]
+
 # ------------------------------------------------------------------ running the two sides
 
 def run_impl(exe, reqs, timeout):
@@ -615,8 +653,8 @@ def _body(res, tier, obs, model, proved):
             nblock += 1
         keep.append(idx)
         reqs.append({"id": "A%d" % idx, "src": seq_script(cap, ops), "procs": 2, "yield": 0,
-                     "timeout_ms": 250 if blocks else 4000})
-        tmo[idx] = 250 if blocks else 4000
+                     "timeout_ms": 500 if blocks else 6000})
+        tmo[idx] = 500 if blocks else 6000
     C.log("C10/A: %d sequential histories (%d blocking)" % (len(reqs), nblock))
     ares, fails = run_impl_sharded(obs, reqs, C.NCPU, 600)
     agree = 0
@@ -808,6 +846,43 @@ def _body(res, tier, obs, model, proved):
     if fresh_violation():
         return finish()
     C.log("C10/E: witness")
+    # ---------------- E0: the Coq witness schedule itself, forced with the overlay hook
+    #   [Send 0; Send 0; Next 1; Next 2; Store/Count 1; Store/Count 2; Entry 1; Entry 2]: both Entry steps read the
+    #   value stored last: C10_refuted_range_multi says delivered = [(1, 11); (2, 11)] and 10 is lost
+    det = {"attempted": False}
+    if not fused:
+        gap_exe, gwhy = build_gap_binary()
+        if gap_exe:
+            det = {"attempted": True, "runs": 0, "reproduced": 0, "outcomes": []}
+            for k in range(3):
+                rc_, r_, e_ = run_impl(gap_exe, [{"id": "W", "src": WITNESS_SRC, "procs": 16, "yield": 0, "timeout_ms": 8000,
+                                                  "gap": 2}], 60)
+                r = r_.get("W")
+                st["evals"] += 1
+                if not r or r.get("error") or not r.get("gap_hook"):
+                    det["outcomes"].append("run failed: %r" % (r and r.get("error"),))
+                    continue
+                det["runs"] += 1
+                a, b = r["logs"].get("1", []), r["logs"].get("2", [])
+                det["outcomes"].append([a, b])
+                if a == b and a in ([10], [11]):
+                    det["reproduced"] += 1
+                    oracle_viol.append({"stage": "E0-witness-schedule", "config": {"counts": [2], "rkinds": ["range_v", "range_v"], "cap": 2},
+                                        "why": "forced schedule Next 1; Next 2; Entry 1; Entry 2: both ranging goroutines were handed %d, %d was "
+                                               "never delivered (Coq: C10_refuted_range_multi)" % (a[0], 21 - a[0]),
+                                        "src": WITNESS_SRC, "klass": KNOWN_CLASS})
+                    nontrivial.add(("E0", tuple(a)))
+                elif sorted(a + b) != [10, 11]:
+                    oracle_viol.append({"stage": "E0-witness-schedule", "config": {"counts": [2], "rkinds": ["range_v", "range_v"], "cap": 2},
+                                        "why": "forced witness schedule gave %r / %r" % (a, b), "src": WITNESS_SRC, "klass": None})
+            if det["runs"] and not det["reproduced"]:
+                corr.append({"stage": "E0-witness-schedule", "impl": det["outcomes"],
+                             "model": "the two-step model delivers the same value to both receivers under this schedule"})
+        else:
+            det = {"attempted": False, "why": gwhy}
+            res.notes.append("deterministic witness replay skipped: " + str(gwhy)[:300])
+    stats["E0_witness_schedule"] = det
+
     # ---------------- E: the refutation witness on the real code
     nwit = 4 if quick else 20
     wit_cfg = {"cap": 4, "counts": [20000], "rkinds": ["range_v", "range_v", "range_v"], "sform": ["go"],
